@@ -9,6 +9,7 @@ package main
 import (
 	"fmt"
 	"iter"
+	"math"
 	"math/bits"
 	"reflect"
 	"sort"
@@ -151,7 +152,7 @@ var opNames = []string{"Set", "SetNx", "SetX", "Remove", "Get", "GetNode", "Len"
 
 func gen(r *sim.Rng, tier string) *sim.Case {
 	c := &sim.Case{Params: map[string]int{}}
-	kind := r.N(9)
+	kind := r.N(10)
 	c.Params["kind"] = kind
 	if r.Pct(20) {
 		c.Params["twin"] = 1 // a second list of the same type is used alternately
@@ -752,6 +753,17 @@ func exec(c *sim.Case, out *sim.WorkerOut) (*sim.Violation, bool) {
 	case 7:
 		// floating-point keys: negative, fractional, and index 2 is 0.0 (the zero value of the key type)
 		v, nt = execTyped(c, ordinary(start, func(i int) float64 { return float64(i-2) * 0.25 }, func(k float64) int { return int(k*4) + 2 }), out, dg)
+	case 9:
+		// a comparator that answers with the extremes of int (legal: only the sign matters)
+		v, nt = execTyped(c, withCmp(start, func(a, b int) int {
+			switch {
+			case a < b:
+				return math.MinInt
+			case a > b:
+				return math.MaxInt
+			}
+			return 0
+		}, func(i int) int { return i }, func(k int) int { return k }, func(i int) int { return i }), out, dg)
 	case 3:
 		v, nt = execTyped(c, withCmp(start, func(a, b int) int { return a - b }, func(i int) int { return i }, func(k int) int { return k }, func(i int) int { return i }), out, dg)
 	case 4:
